@@ -422,6 +422,26 @@ func c18Scenarios() []c18Scenario {
 			return final(w)
 		}
 	}})
+	// A cache is created on the cleaner while its garbage collection pass (which has a released cache to drop)
+	// is running: the new cache is live and must stay under the cleaner's management.
+	res = append(res, c18Scenario{"new cache created during the cleaner pass that drops a released one", func() (*c18World, []func(), func() string) {
+		w := prefill(2)
+		w.caches[1].Release()
+		var v1, calls int
+		return w, []func(){
+			func() {
+				nc := NewCache[int](w.cl, nil)
+				w.caches = append(w.caches, nc) // index 2
+				v1 = nc.Get(1, loader(2, 1, &calls))
+			},
+			cleanerPass(w),
+		}, func() string {
+			if v1 != c18Val(2, 1) {
+				return fmt.Sprintf("lookup returned %d, loader value %d", v1, c18Val(2, 1))
+			}
+			return final(w)
+		}
+	}})
 	// An entry is evicted while its loader is still running (the current generation alone exceeds the
 	// limit, so one cleaner pass rotates and marks it stale), a second caller of the same key comes
 	// after the eviction and loads its own entry, then the first loader returns / fails / panics.
